@@ -997,6 +997,7 @@ let mode_of s = if s = "d" then Debug else Release
 let run (input : string) : string =
   let p = Array.of_list (split_on '|' input) in
   match p.(0) with
+  | "arr" -> "n/a"     (* the generic array writers are judged against a reference encoder below *)
   | "lay" ->
     let (rl, wl) = List.assoc p.(1) layouts in
     let b = layout_write (p.(2) = "1") wl (nums p.(3)) in
@@ -1245,6 +1246,40 @@ let judge (input : string) (impl : string) (model : string) : verdict =
   if impl = "oob" then viol "oob" "out-of-bounds read"
   else if has_panic && not model_panic then viol "panic" ("panicked: " ^ impl)
   else match p.(0) with
+    | "arr" ->
+      (* reference: item i of a strided array is the big-endian value at i * stride; writing an array writes
+         its items, packed, and nothing else (padding between strided items is not part of the array) *)
+      let size = (match p.(1) with "u8" | "i8" -> 1 | "u16" | "i16" -> 2 | _ -> 4) in
+      let signed = (p.(1) = "i8" || p.(1) = "i16") in
+      let n = int_of_string p.(2) and stride0 = int_of_string p.(3) in
+      let stride = if stride0 = 0 then size else stride0 in
+      let hexs = p.(4) in
+      let nbytes = (if hexs = "-" then 0 else String.length hexs / 2) in
+      let byte i = int_of_string ("0x" ^ String.sub hexs (2 * i) 2) in
+      let readable = stride0 = 0 || stride >= size in
+      let fits = n * stride <= nbytes || (n = 0) in
+      (match get "r" ip with
+       | Some r when starts_with "err" r ->
+         if readable && fits then viol "refusal" "a well-formed array was refused" else Agree
+       | Some r ->
+         if not (readable && fits) then viol "decode" "an array that does not fit its data (or whose stride is smaller than an item) was accepted"
+         else begin
+           let item i =
+             let v = ref 0 in
+             for k = 0 to size - 1 do v := !v * 256 + byte (i * stride + k) done;
+             if signed && !v >= 1 lsl (8 * size - 1) then !v - (1 lsl (8 * size)) else !v in
+           let items = List.init n item in
+           let expect_r = if n = 0 then "-" else String.concat "," (List.map string_of_int items) in
+           let enc v = let v = if v < 0 then v + (1 lsl (8 * size)) else v in
+             String.concat "" (List.init size (fun k -> Printf.sprintf "%02x" ((v lsr (8 * (size - 1 - k))) land 255))) in
+           let expect_w = if n = 0 then "-" else String.concat "" (List.map enc items) in
+           if r <> expect_r then viol "decode" ("strided array read " ^ r ^ ", the items are " ^ expect_r)
+           else if get "w" ip <> Some expect_w then viol "roundtrip" ("write_array wrote " ^ (match get "w" ip with Some w -> w | None -> "?") ^ " for the items " ^ expect_r)
+           else if get "c" ip <> Some expect_w then viol "roundtrip" "ReadArrayCow::write did not write the items of the array"
+           else if get "r2" ip <> Some expect_r then viol "roundtrip" "reading the written array back gives other items"
+           else Agree
+         end
+       | None -> Mismatch ("unreadable arr report: " ^ impl))
     | "lay" ->
       let (rl, wl) = List.assoc p.(1) layouts in
       let fill = p.(2) = "1" and vs = nums p.(3) in
